@@ -41,6 +41,9 @@ RULE = (
 ASSUMPTIONS = [
     "the brute-force side reads the complex only through list(S.nodes) and S.edges.members(dtype=dict); 0-simplices are the nodes (singleton simplices in the edge table are optional extras)",
     "orientation assignments are dicts {ID of every simplex of order >= 1: 0/1 (or False/True)}, as documented; orientations=None is the all-zero assignment",
+    "the 0/1 values are passed as Python int, Python bool, np.bool_ (elements of a boolean array), np.int64, np.int32 or np.int8, `order` as int, np.int64, np.int32 or np.intp, rotating; "
+    "unsigned numpy types are excluded: with NumPy >= 2 `(-1) ** np.uint8(1)` raises OverflowError on the unchanged tree (for orientation values and for order), a loud refusal of an undocumented type. "
+    "A failure that disappears with Python-int arguments gets the trigger tag 'non-int-valued-arguments'",
     "boundary matrices hold small integers in floats: products and symmetry are compared exactly; PSD means lambda_min >= -1e-9 (n <= 35 simplices per order)",
     "the row map of B_k must equal the column map of B_{k-1} (otherwise the product of the matrices as returned is not the composition of the operators)",
     "hodge_laplacian is only asked for what the statement lists (shape, symmetric, PSD, dim ker L_0); agreement with B_k^T B_k + B_{k+1} B_{k+1}^T of the returned boundary matrices is counted, not asserted",
@@ -52,6 +55,14 @@ CASE_TIMEOUT = 300
 
 LABEL_KINDS = ("str", "mixed", "negative", "float", "numeric-mixed")
 ID_KINDS = ("explicit-int", "explicit-str", "auto", "explicit-mixed")
+# types of the 0/1 orientation values and of the `order` argument.  np.uint8 (any unsigned type) is NOT a legal input: with NumPy >= 2
+# `(-1) ** np.uint8(1)` raises OverflowError on the unchanged tree, for orientation values and for `order` alike.
+VALUE_TYPES = (int, bool, np.bool_, np.int64, np.int32, np.int8)
+ORDER_TYPES = (int, np.int64, np.int32, np.intp)
+
+
+def tname(t):
+    return f"{t.__module__}.{t.__name__}"
 
 
 # ---------------------------------------------------------------------------------
@@ -123,6 +134,8 @@ def floors(tier):
         "product:order>=2": 1000, "product-with-2-simplices-and-custom-orientation": 500,
         "hodge:checked": 3000, "kernel:checked": 1000, "kernel:disconnected": 200,
         "orientation:bool-values": 100, "index=False": 1000,
+        **{f"orientation:values:{tname(t)}": 1500 for t in VALUE_TYPES},
+        **{f"order-arg:{tname(t)}": 20000 for t in set(ORDER_TYPES)},
     }
     f.update({f"labels:{k}": 200 for k in LABEL_KINDS})
     f.update({f"ids:{k}": 200 for k in ID_KINDS})
@@ -139,6 +152,8 @@ def extra_coverage(mon):
             "(1+1+2+9+114, isolated vertices included as nodes), each without and with all vertices as singleton simplices, integer labels, automatic simplex IDs, "
             "one seeded insertion order each; for the 252 complexes with <= 10 oriented simplices ALL 2^m orientation assignments plus orientations=None, for the 2 "
             "complexes with 11 oriented simplices 64 seeded assignments + all-0 + all-1 + None; every order 0..dim+1. "
+            "Each assignment is passed with ONE representation of its 0/1 values, rotating with the assignment number through Python int, Python bool, np.bool_, np.int64, np.int32, np.int8, "
+            "and `order` rotates through int, np.int64, np.int32, np.intp: the (assignment x value type) product is sampled, not exhaustive. "
             f"Assignments checked in this run: {c.get('enum:assignments', 0)}. Everything else (label kinds, explicit IDs, insertion orders, complexes on 5-7 vertices) is sampled, not exhaustive."
         ),
     }
@@ -246,7 +261,24 @@ def check_complex(mon, S, orients, lk, desc, count_prefix=None):
     def members_of(k, ident):
         return frozenset([ident]) if k == 0 else mem[ident]
 
+    def type_matters():
+        """Do numerically equal plain-Python arguments (int orders, int 0/1 values) give different matrices?"""
+        plain = None if orient is None else {e: int(v) for e, v in orient.items()}
+        try:
+            for k in range(0, dim + 2):
+                for T in ORDER_TYPES:
+                    if not np.array_equal(xgi.boundary_matrix(S, T(k), orient, False), xgi.boundary_matrix(S, k, plain, False)):
+                        return True
+                    if not np.array_equal(xgi.hodge_laplacian(S, T(k), orient, False), xgi.hodge_laplacian(S, k, plain, False)):
+                        return True
+        except Exception:
+            return True
+        return False
+
     def fire(fn, trig, clause, call, text):
+        if type_matters():
+            trig += ",non-int-valued-arguments"
+            text += "\n(the same call with Python-int order and Python-int 0/1 orientation values gives a different matrix)"
         mon.fail(f"{fn}|{trig}|{clause}", f"{call}: {text}", f"{call}\norientations = {orient!r}\non {snap.pretty(S)}\n({desc})")
         raise Fired()
 
@@ -256,6 +288,9 @@ def check_complex(mon, S, orients, lk, desc, count_prefix=None):
         otag = "orientations" if custom else "default-orientations"
         if orient is not None and any(isinstance(v, bool) for v in orient.values()):
             mon.note("orientation:bool-values")
+        if orient:
+            for t in {type(v) for v in orient.values()}:
+                mon.note(f"orientation:values:{tname(t)}")
         if any(len(m) > 1 for m in mem.values()):
             mon.nontrivial((struct, None if orient is None else tuple(sorted((repr(k), int(v)) for k, v in orient.items()))))
         try:
@@ -265,7 +300,9 @@ def check_complex(mon, S, orients, lk, desc, count_prefix=None):
                 oc = "order=0" if k == 0 else "order=1" if k == 1 else "order>=2"
                 trig = ",".join(x for x in (oc, mixed, otag) if x)
                 call = f"boundary_matrix(S, {k}, orientations, index=True)"
-                B, rd, cd = xgi.boundary_matrix(S, k, orient, True)
+                OT = ORDER_TYPES[(k + done) % 4]
+                mon.note(f"order-arg:{tname(OT)}")
+                B, rd, cd = xgi.boundary_matrix(S, OT(k), orient, True)
                 mon.ev()
                 mon.note(f"boundary:{oc}")
                 B = np.asarray(B)
@@ -300,7 +337,7 @@ def check_complex(mon, S, orients, lk, desc, count_prefix=None):
                 Bs[k] = B
                 if (k + done) % 3 == 0:
                     mon.note("index=False")
-                    B2 = xgi.boundary_matrix(S, k, orient, False)
+                    B2 = xgi.boundary_matrix(S, ORDER_TYPES[(k + done + 2) % 4](k), orient, False)
                     if isinstance(B2, tuple) or not np.array_equal(np.asarray(B2), B):
                         fire("boundary_matrix", trig, "index=False-differs", call, f"index=False gives\n{B2}\nindex=True gave\n{B}")
             Bs[dim + 2] = np.zeros((len(byorder[dim + 1]), 0))
@@ -308,7 +345,9 @@ def check_complex(mon, S, orients, lk, desc, count_prefix=None):
                 oc = "order=0" if k == 0 else "order>=1"
                 trig = ",".join(x for x in (oc, mixed, otag) if x)
                 call = f"hodge_laplacian(S, {k}, orientations, index=True)"
-                L, md = xgi.hodge_laplacian(S, k, orient, True)
+                OT = ORDER_TYPES[(k + done + 1) % 4]
+                mon.note(f"order-arg:{tname(OT)}")
+                L, md = xgi.hodge_laplacian(S, OT(k), orient, True)
                 mon.ev()
                 mon.note("hodge:checked")
                 L = np.asarray(L)
@@ -329,7 +368,7 @@ def check_complex(mon, S, orients, lk, desc, count_prefix=None):
                 ref = Bs[k].T @ Bs[k] + Bs[k + 1] @ Bs[k + 1].T
                 mon.note("hodge-definition:agrees" if ref.shape == L.shape and np.array_equal(ref, L) else "hodge-definition:DISAGREES(not asserted)")
                 if (k + done) % 4 == 0:
-                    L2 = xgi.hodge_laplacian(S, k, orient, False)
+                    L2 = xgi.hodge_laplacian(S, ORDER_TYPES[(k + done + 3) % 4](k), orient, False)
                     mon.note("index=False")
                     if isinstance(L2, tuple) or not np.array_equal(np.asarray(L2), L):
                         fire("hodge_laplacian", trig, "index=False-differs", call, f"index=False gives\n{L2}")
@@ -339,22 +378,30 @@ def check_complex(mon, S, orients, lk, desc, count_prefix=None):
     return done, True
 
 
-def assignments(rng, oriented, how):
-    """how = 'all' -> None + every 0/1 assignment; int -> None + that many seeded ones (+ all-0, all-1)."""
+def typed(oriented, bits, T):
+    """The assignment `bits` with its 0/1 values represented in type T (np.bool_ the way a user gets it: from a boolean array)."""
+    if T is np.bool_:
+        return dict(zip(oriented, np.array(bits, dtype=float) > 0.5))
+    if T in (int, bool):
+        return dict(zip(oriented, map(T, bits)))
+    return dict(zip(oriented, np.array(bits, dtype=T)))
+
+
+def assignments(rng, oriented, how, rot=0):
+    """how = 'all' -> None + every 0/1 assignment; int -> None + that many seeded ones (+ all-0, all-1).
+    The type of the values rotates through VALUE_TYPES with the assignment number (offset `rot`)."""
     yield None
+    n = len(VALUE_TYPES)
     if how == "all":
-        for bits in product((0, 1), repeat=len(oriented)):
-            yield dict(zip(oriented, bits))
+        for j, bits in enumerate(product((0, 1), repeat=len(oriented))):
+            yield typed(oriented, bits, VALUE_TYPES[(j + rot) % n])
         return
     if not oriented:
         return
-    yield {e: 0 for e in oriented}
-    yield {e: 1 for e in oriented}
+    yield typed(oriented, [0] * len(oriented), VALUE_TYPES[rot % n])
+    yield typed(oriented, [1] * len(oriented), VALUE_TYPES[(rot + 1) % n])
     for j in range(how):
-        if j == 0:
-            yield {e: rng.random() < 0.5 for e in oriented}  # bool values, as the docstring says
-        else:
-            yield {e: rng.randint(0, 1) for e in oriented}
+        yield typed(oriented, [rng.randint(0, 1) for _ in oriented], VALUE_TYPES[(rot + 2 + j) % n])
 
 
 def run_case(mon, kind, idx, rng):
@@ -395,7 +442,7 @@ def run_case(mon, kind, idx, rng):
         how = 4
     else:
         how = 2
-    done, ok = check_complex(mon, S, assignments(rng, oriented, how), lk, desc)
+    done, ok = check_complex(mon, S, assignments(rng, oriented, how, rot=idx), lk, desc)
     mon.note(f"{kind}:assignments", done)
     if ok:
         mon.note(f"{kind}:complexes-completed")
